@@ -316,7 +316,7 @@ func c12Table() []*c12Entry {
 			ks, cur, err := x.cli.Scan(x.ctx, c12u(a, 0), c12s(a, 1), c12i64(a, 2)).Result()
 			return c12R(ks, cur), err
 		}})
-	add(&c12Entry{name: "Ping", weight: 1, doc: "Ping()==\"PONG\" -> bool, errors -> false",
+	add(&c12Entry{name: "Ping", weight: 1, fresh: true, doc: "Ping()==\"PONG\" -> bool, errors -> false",
 		gen: func(g *c12Gen) []any { return c12R() },
 		ref: func(x *c12X, a []any) ([]any, error) {
 			v, err := x.cli.Ping(x.ctx).Result()
